@@ -138,6 +138,15 @@ CHECKS["C03"] = dict(
          "complementary. It does not decide that every configuration negotiates and connects.",
     ref="DESIGN.md section 3 C03")
 
+CHECKS["C02"] = dict(
+    technique="pairing and ordering rules: who-may-write scan and guard rules for the flight-size counter, must-event (all-paths, kill-aware) analysis for timer arming and producer-kicks-consumer, enclosing-guard rule for timer cancellation, lower-bound folding of window assignments",
+    text="Decides structural necessary conditions of 'no permanent stall': _flight_size is only written by its helpers / a reset, every increase happens for a chunk "
+         "whose _acked is False (so the cumulative-ack path undoes it), acks decrease under exactly `not _acked`, a T3 expiry leaves nothing counted; T3 is armed on "
+         "every path of start/restart, after every data (re)transmission, cleared and followed by _transmit on expiry, cancelled only with nothing outstanding; every "
+         "producer of the three queues starts its consumer on every exit, accepted SACKs reach flush and transmit; cwnd never drops below one MTU. It does not decide "
+         "delivery in bounded time or absence of stalls over all fault histories (abandoned fragments of partially reliable messages are outside the rules).",
+    ref="DESIGN.md section 3 C02")
+
 NOT_APPLICABLE = {
     "C06": "every clause quantifies over loss schedules, timers and the interleaving of several channels' fragments across heap queues; no "
            "clause has a structural necessary condition that is not merely a description of one implementation (DESIGN.md section 5). Its "
